@@ -515,6 +515,12 @@ impl<'tcx> D<'tcx> {
             if let Some(n) = &names[l.as_usize()] {
                 lo.push(("name", J::S(n.clone())));
             }
+            // does the size of this local depend on a type parameter (a `T`, `ManuallyDrop<T>`, `Option<T>` held by
+            // value)?  The frame of a recursive function must not.
+            match self.tcx.layout_of(env.as_query_input(decl.ty)) {
+                Ok(l) => lo.push(("size", J::I(l.size.bytes() as i128))),
+                Err(_) => lo.push(("size_generic", J::B(true))),
+            }
             match decl.ty.kind() {
                 ty::Adt(adt, _) => lo.push(("adt", J::S(self.path(adt.did())))),
                 ty::Closure(d, _) => lo.push(("closure", J::S(self.path(*d)))),
